@@ -2,6 +2,7 @@
   C12 — execution limits and stop requests are honoured.  Property theorems only.
 -/
 import SV.Proofs.Engine
+import SV.Proofs.StatefulMachine
 import SV.Model.Plan
 
 namespace SV.Props.C12
@@ -122,5 +123,58 @@ example : ∃ s, fireAll .repaired (init [⟨1, 0, 0, .failure, false⟩, ⟨2, 
        .cGot false, .cGot false, .cGot false, .cGot false] = some s ∧
       countFailing s.c.out = 2 ∧ s.c.ctl.limit = true ∧ s.c.pc = .closing ∧ s.queue.length = 2 := by
   decide
+
+
+/-! ### the stateful phase: the instrumented state machine and its loop -/
+
+namespace StatefulMachine
+open SV.Model.SM SV.Spec.SM
+
+/-- **Nothing is sent once a stop is pending.**  If the stop event is set or the failure limit is reached, the stateful
+    thread performs no further call — in the current run or in any later iteration — whatever Hypothesis does. (The
+    stateful phase has one thread; the request in flight when the stop arrives is the "one further request".) -/
+theorem nothing_sent_after_stop (v : SV.Model.SM.Variant) (k : Nat) (m : MSt) (runs : List Run) (h : m.ctl.hasToStop = true) :
+    (thread v k m runs).calls = m.calls :=
+  SV.Proofs.SM.thread_stopped v k m runs h
+
+/-- **The loop ends (repaired Flaky arm).**  Let `U` list the failures the API can exhibit. However many iterations the
+    environment is prepared to go through (`runs` may be arbitrarily long) and whatever happens in them, the loop
+    performs at most `|U| + max_examples + 1` iterations, provided the environment is sane (`SaneAll`: a FailureGroup
+    re-raised by Hypothesis contains a failure collected in that run). -/
+theorem loop_terminates_repaired (U : List FKey) (m : MSt) (runs : List Run) (h0 : m.seenSuite = [])
+    (hk : ∀ r, r ∈ runs → ∀ f, f ∈ runKeys r → f ∈ U) (hs : SaneAll 0 m runs) :
+    suitesRun .repaired 0 m runs ≤ U.length + m.maxExamples + 1 := by
+  have h := SV.Proofs.SM.suitesRun_bounded U 0 m runs (by intro f hf; simp [h0] at hf) hk hs
+  have : SV.Proofs.SM.mu U m ≤ U.length + m.maxExamples := by
+    simp only [SV.Proofs.SM.mu]
+    have := List.length_filter_le (fun f => !decide (f ∈ m.seenRun)) U
+    omega
+  omega
+
+/-- **As found the loop need not end** (and with it "no more than max-failures failed or errored scenarios are
+    reported"): an error that does not repeat when Hypothesis replays the scenario makes every iteration end Flaky with
+    nothing to mark as seen; the loop performs as many iterations as the environment is prepared for, each with a new
+    errored scenario and two more requests, whatever `max_failures` is. -/
+theorem loop_asFound_unbounded (n : Nat) (mf : Option Nat) :
+    suitesRun .asFound 0 { ctl := { maxFailures := mf } } (List.replicate n flakyErrorRun) = n ∧
+    (thread .asFound 0 { ctl := { maxFailures := mf } } (List.replicate n flakyErrorRun)).calls = 2 * n := by
+  have := SV.Proofs.SM.asFound_runs_as_long_as_scripted n 0 { ctl := { maxFailures := mf } } ⟨rfl, rfl, rfl, rfl⟩
+  simpa using this
+
+/-- the same environment under the repaired arm: one iteration -/
+theorem loop_repaired_stops (n : Nat) : suitesRun .repaired 0 {} (List.replicate (n + 1) flakyErrorRun) = 1 := by
+  have := (SV.Proofs.SM.flakyErrorRun_repaired 0 {} ⟨rfl, rfl, rfl, rfl⟩).1
+  simp [List.replicate_succ, suitesRun, this]
+
+/-- non-vacuity of `loop_terminates_repaired`: three iterations, each marking a new failure of `U = [1, 2, 3]` -/
+example : SaneAll 0 {} [⟨[⟨false, [⟨1, false, .responds [.fail [1]]⟩]⟩], .failureGroup [1], false⟩,
+                         ⟨[⟨false, [⟨1, false, .responds [.fail [1, 2]]⟩]⟩], .flaky, false⟩,
+                         ⟨[⟨false, [⟨1, false, .responds [.fail [2, 1]]⟩]⟩], .ok, false⟩] ∧
+    suitesRun .repaired 0 {} [⟨[⟨false, [⟨1, false, .responds [.fail [1]]⟩]⟩], .failureGroup [1], false⟩,
+                         ⟨[⟨false, [⟨1, false, .responds [.fail [1, 2]]⟩]⟩], .flaky, false⟩,
+                         ⟨[⟨false, [⟨1, false, .responds [.fail [2, 1]]⟩]⟩], .ok, false⟩] = 3 := by
+  refine ⟨⟨⟨1, by decide, by decide⟩, fun _ => ⟨trivial, fun _ => ⟨trivial, fun _ => trivial⟩⟩⟩, by decide⟩
+
+end StatefulMachine
 
 end SV.Props.C12
